@@ -74,8 +74,14 @@ class SlotTestvReadvWritev(Spec):
         ov = {"mutable.MutableShareFile": new_msf, "mutable.create_mutable_sharefile": create_msf, "StorageServer.count": noop,
               "StorageServer.add_latency": noop, "StorageServer.log": noop, "StorageServer.get_available_space": lambda I, a, kw: 10 ** 9,
               "lease.LeaseInfo": lambda I, a, kw: Opaque("lease_info")}
+        def rm_dir(I, key):
+            # recursive removal of the bucket directory destroys every share file still in it
+            for i in sorted(me._exists):
+                me._log.append(("unlink", i))
+            me._exists.clear()
+            me._log.append(("rm_dir", key))
         return {"overrides": ov, "listdir": listdir, "isdir": lambda I, key: bool(me._exists),
-                "rmdir": lambda I, key: me._log.append(("rmdir", key))}
+                "rmdir": lambda I, key: me._log.append(("rmdir", key)), "rm_dir": rm_dir}
 
     def run(self, I, a):
         from allmydata.interfaces import BadWriteEnablerError
